@@ -295,24 +295,9 @@ impl<'a, T: Elem + SatisfyTraits<Tr>, M: MemCaps, Tr: ?Sized + TrCaps> Cx<'a, T,
                 self.val(x);
                 drop(it);
             }
-            End::Fold => {
-                let xs = it.fold(Vec::new(), |mut a, e| {
-                    a.push(probe(&e));
-                    a
-                });
-                xs.into_iter().for_each(|x| self.val(x));
-            }
-            End::RFold => {
-                let xs = it.rfold(Vec::new(), |mut a, e| {
-                    a.push(probe(&e));
-                    a
-                });
-                xs.into_iter().for_each(|x| self.val(x));
-            }
-            End::StepBy2 => {
-                let xs: Vec<Val> = it.step_by(2).map(|e| probe(&e)).collect();
-                xs.into_iter().for_each(|x| self.val(x));
-            }
+            End::Fold => it.fold((), |(), e| self.val(probe(&e))),
+            End::RFold => it.rfold((), |(), e| self.val(probe(&e))),
+            End::StepBy2 => it.step_by(2).for_each(|e| self.val(probe(&e))),
         }
     }
 
@@ -353,24 +338,9 @@ impl<'a, T: Elem + SatisfyTraits<Tr>, M: MemCaps, Tr: ?Sized + TrCaps> Cx<'a, T,
                 let x = it.last().map(|e| probe_val(&e)).unwrap_or(Val::None);
                 self.val(x);
             }
-            End::Fold => {
-                let xs = it.fold(Vec::new(), |mut a, e| {
-                    a.push(probe_val(&e));
-                    a
-                });
-                xs.into_iter().for_each(|x| self.val(x));
-            }
-            End::RFold => {
-                let xs = it.rfold(Vec::new(), |mut a, e| {
-                    a.push(probe_val(&e));
-                    a
-                });
-                xs.into_iter().for_each(|x| self.val(x));
-            }
-            End::StepBy2 => {
-                let xs: Vec<Val> = it.step_by(2).map(|e| probe_val(&e)).collect();
-                xs.into_iter().for_each(|x| self.val(x));
-            }
+            End::Fold => it.fold((), |(), e| self.val(probe_val(&e))),
+            End::RFold => it.rfold((), |(), e| self.val(probe_val(&e))),
+            End::StepBy2 => it.step_by(2).for_each(|e| self.val(probe_val(&e))),
         }
     }
 
@@ -770,24 +740,9 @@ impl<'a, T: Elem + SatisfyTraits<Tr>, M: MemCaps, Tr: ?Sized + TrCaps> Cx<'a, T,
                         let x = $it.by_ref().last().map(|e| $probe(e)).unwrap_or(Val::None);
                         self.val(x);
                     }
-                    End::Fold => {
-                        let xs = $it.by_ref().fold(Vec::new(), |mut a, e| {
-                            a.push($probe(e));
-                            a
-                        });
-                        xs.into_iter().for_each(|x| self.val(x));
-                    }
-                    End::RFold => {
-                        let xs = $it.by_ref().rfold(Vec::new(), |mut a, e| {
-                            a.push($probe(e));
-                            a
-                        });
-                        xs.into_iter().for_each(|x| self.val(x));
-                    }
-                    End::StepBy2 => {
-                        let xs: Vec<Val> = $it.by_ref().step_by(2).map(|e| $probe(e)).collect();
-                        xs.into_iter().for_each(|x| self.val(x));
-                    }
+                    End::Fold => $it.by_ref().fold((), |(), e| self.val($probe(e))),
+                    End::RFold => $it.by_ref().rfold((), |(), e| self.val($probe(e))),
+                    End::StepBy2 => $it.by_ref().step_by(2).for_each(|e| self.val($probe(e))),
                 }
             }};
         }
